@@ -11,6 +11,7 @@ OVERLAY = {
     "podeni_export.go": "pkg/controller/pod-eni/zz_verif_export.go",
     "webhook_export.go": "pkg/controller/webhook/zz_verif_export.go",
     "ipamnode_export.go": "pkg/controller/multi-ip/node/zz_verif_export.go",
+    "podctl_export.go": "pkg/controller/pod/zz_verif_export.go",
 }
 
 NOT_APPLICABLE = {}
@@ -261,6 +262,37 @@ PROPS = {
         "level_text": "Theorems (partial): every slot of a plan asks for at most what the per-interface limit leaves (new interface: at most the limit); the number of slots never exceeds max(flavor total, interfaces present) "
                       "when the record holds no more trunk interfaces than the flavor lists (hypothesis shown necessary by a witness). The model's plan is compared with the real one on every planning case.",
         "level_note": "Trusted: Coq kernel, extraction, driver, harness. Partial: fixed point, roll-back and agreement after resynchronisation are checked on the implementation's histories, not proved.",
+    },
+    "C10": {
+        "pkg": "./podeni/", "test": "TestVerif_PodENI", "n_quick": 150, "n_thorough": 5000, "env": {"VERIF_PROP": "C10"},
+        "rule": "histories of 40..150 steps over 1..3 pod names: pods are created (elastic, fixed TTL, fixed Never, two interfaces with mixed strategies; fixed-name or ReplicaSet-owned), exit, are deleted and recreated with a new "
+                "uid, also on another node; the real ReconcilePod and ReconcilePodENI are called for a name in any order, the record collector and the leaked-interface collector run, virtual time advances past the TTLs and "
+                "the 10-minute grace; cloud faults (error before / after effect on create, attach, detach, delete), API faults (record create failure, status update failure, conflict) and an attach call held open while "
+                "the pod goes away. After every step the pods, the PodENI records, the cloud call log and the cloud's interfaces are compared with the model's decision for that step and judged by the clauses "
+                "1001 (phase edges) 1002 (no detach/delete under a running bound pod) 1003/1004 (no interface without a record) 1005 (records of vanished pods go). non-trivial = the history has steps; distinct = distinct input vectors",
+        "trusted": ["controller-runtime fake client (status subresource, resourceVersion conflicts, finalizers and deletionTimestamp, interceptors for injected failures)", "simulated cloud (harness/podeni fakeCloud)",
+                    "testing/synctest virtual clock (go1.26.8)", "the harness' integer encoding of pods, records and interfaces (PeRun.v decoders)"],
+        "modelled": ["the work queues: which controller looks at which name when is the script's choice; informer cache staleness is not modelled (the fake client is always current)",
+                     "a create call that reports failure is assumed to have created nothing (idempotent retry in the client wrapper)", "trunk / exclusive-ENI node mode switches and network-card index selection are not driven"],
+        "assumptions": ["pod uids are unique and a sandbox that exited does not come back"],
+        "level_text": "Theorems: every decision of the two controllers moves the record along an edge of the documented machine except the two named in the known finding; the cloud detach / delete actions are taken only in "
+                      "Detaching or under deletion; those are entered only when the pod of the record's uid is absent, exited or replaced by another uid, and stay so (uids are never reused) - so no interface is pulled from "
+                      "a running bound pod, for every interleaving of controller steps and pod events. Tied by following the model along every step of the real controllers.",
+        "level_note": "Trusted: Coq kernel, extraction, driver, harness. Partial: roll-back on failed creation and the absence of leaks are judged on histories (clauses 1003/1004), not proved; cloud errors are modelled as 'step has no effect on the record'.",
+    },
+    "C11": {
+        "pkg": "./podeni/", "test": "TestVerif_PodENI", "n_quick": 150, "n_thorough": 5000, "env": {"VERIF_PROP": "C11"},
+        "rule": "as C10 with more fixed-IP pods and foreign cloud interfaces (no tags, only the cluster tag, only the creator tag, both, another cluster's tag, unrelated tags; 30 s .. 5000 s old; available, attached member, attached "
+                "secondary). Clauses: 1101 a record's interfaces and addresses never change while it exists, 1102 a fixed-IP record is given up only by the record collector, with the pod absent or not needing it, no Never "
+                "allocation and every TTL elapsed since last seen, 1103 the interface collector touches only interfaces with both tags of this cluster, older than the grace period, named by no record, 1104 at the end every "
+                "running fixed-name pod with a fixed address is bound under its uid. non-trivial / distinct as C10",
+        "trusted": ["as C10"],
+        "modelled": ["as C10; the second resolution of the cloud's creation time leaves ages within a second of the grace period open"],
+        "assumptions": [],
+        "level_text": "Theorems: the collector's keep rule equals 'some fixed allocation votes keep' for every list of allocations (so the order of allocations does not matter) and a kept record is never moved to Deleting by "
+                      "the collector; before the TTL has elapsed since last seen, or with a Never allocation, the record is kept; an interface is a victim only with both tags, age >= 600 s and no reference. "
+                      "Tied by comparing the model's decision with the real collector passes on every history.",
+        "level_note": "Trusted: Coq kernel, extraction, driver, harness. Re-binding of a fixed record to the new pod uid is judged on histories (clauses 1101/1104) and by following the pod controller's decision function.",
     },
     "C04": {
         "pkg": "./svc/", "test": "TestVerif_Svc", "n_quick": 400, "n_thorough": 20000, "env": {"VERIF_PROP": "C04"},
@@ -924,6 +956,117 @@ def dist_C03(cases):
 
 def dist_C08(cases):
     return _dist_ipam(cases)
+
+
+PE_PHASES = {0: "Initial", 1: "Bind", 2: "Detaching", 3: "Unbind", 4: "Binding", 5: "Deleting"}
+
+
+def _pe_blocks(outs):
+    """parse the per-step blocks of a PodENI history: list of dict(step, name, err, pods, recs{name: (phase, uid, del, allocs)}, calls)"""
+    o = [int(x) for x in outs]
+    i = 0
+    res = []
+    try:
+        while i < len(o) and o[i] == 88:
+            d = {"step": o[i + 1], "name": o[i + 2], "err": o[i + 3], "recs": {}, "calls": []}
+            i += 4
+            np_ = o[i]; i += 1
+            d["pods"] = [tuple(o[i + 5 * j:i + 5 * j + 5]) for j in range(np_)]; i += 5 * np_
+            nr = o[i]; i += 1
+            for _ in range(nr):
+                nm, ph, uid, node, dl, fin = o[i:i + 6]; i += 6
+                na = o[i]; i += 1
+                al = tuple(o[i:i + 5 * na]); i += 5 * na
+                seen = o[i]; i += 1
+                d["recs"][nm] = (ph, uid, dl, al, seen)
+            nc = o[i]; i += 1
+            for _ in range(nc):
+                m = o[i]; d["calls"].append(o[i + 1:i + 1 + m]); i += 1 + m
+            for _x in range(2):
+                n = o[i]; i += 1 + 5 * n
+            res.append(d)
+    except IndexError:
+        pass
+    return res
+
+
+def sig_C10(ins, outs, extra=""):
+    code, idx = _why(extra)
+    if code in (1001, 1006):
+        bs = _pe_blocks(outs)
+        if 0 < idx < len(bs):
+            prev, cur = bs[idx - 1]["recs"], bs[idx]["recs"]
+            bad = []
+            for nm, c in cur.items():
+                if nm in prev and prev[nm][3] == c[3] and prev[nm][0] != c[0]:
+                    bad.append((prev[nm][0], c[0]))
+                if nm not in prev and c[0] != 0:
+                    bad.append((-1, c[0]))
+            legal = {(0, 1), (1, 2), (2, 3), (3, 4), (4, 1)}
+            bad = [t for t in bad if t not in legal and t[1] != 5]
+            if bad and all(t in ((0, 2), (4, 2)) for t in bad):
+                return "C10:phase:Initial-or-Binding->Detaching"
+            if bad:
+                a, b = bad[0]
+                return "C10:phase:%s->%s" % (PE_PHASES.get(a, "new"), PE_PHASES.get(b, "?"))
+    return "C10:clause%d" % code
+
+
+def sig_C11(ins, outs, extra=""):
+    code, idx = _why(extra)
+    return "C11:clause%d" % code
+
+
+def _pe_nt(ins, outs):
+    return any(int(x) == 88 for x in outs[:1]) and len(outs) > 40
+
+
+def nt_C10(ins, outs):
+    return _pe_nt(ins, outs)
+
+
+def nt_C11(ins, outs):
+    return _pe_nt(ins, outs)
+
+
+def _dist_pe(cases):
+    ev = {1: "add_pod", 2: "sandbox_exits", 3: "delete_pod", 4: "pod_controller_reconcile", 5: "podeni_controller_reconcile", 6: "record_collector_pass",
+          7: "interface_collector_pass", 8: "advance_time", 9: "foreign_interface", 10: "api_fault", 11: "hold_next_attach", 12: "release_attach"}
+    d = {"histories": len(cases), "steps": 0, "events": {v: 0 for v in ev.values()}, "steps_with_error": 0, "cloud_calls": 0,
+         "phase_transitions": {}, "pod_kinds": {"elastic": 0, "fixed_ttl": 0, "fixed_never": 0, "two_interfaces": 0, "no_podeni": 0}}
+    kn = {0: "elastic", 1: "fixed_ttl", 2: "fixed_never", 3: "two_interfaces", 4: "two_interfaces", 5: "no_podeni"}
+    for _, ins, outs in cases:
+        try:
+            ii = [int(x) for x in ins]
+            n = ii[3]; i = 4
+            for _ in range(n):
+                m = ii[i]; r = ii[i + 1:i + 1 + m]; i += 1 + m
+                if r:
+                    d["events"][ev.get(r[0], "add_pod")] += 1
+                    if r[0] == 1:
+                        d["pod_kinds"][kn.get(r[4], "elastic")] += 1
+        except Exception:
+            pass
+        bs = _pe_blocks(outs)
+        d["steps"] += len(bs)
+        prev = {}
+        for b in bs:
+            d["steps_with_error"] += 1 if b["err"] else 0
+            d["cloud_calls"] += len(b["calls"])
+            for nm, c in b["recs"].items():
+                if nm in prev and prev[nm][0] != c[0]:
+                    k = "%s->%s" % (PE_PHASES.get(prev[nm][0]), PE_PHASES.get(c[0]))
+                    d["phase_transitions"][k] = d["phase_transitions"].get(k, 0) + 1
+            prev = b["recs"]
+    return d
+
+
+def dist_C10(cases):
+    return _dist_pe(cases)
+
+
+def dist_C11(cases):
+    return _dist_pe(cases)
 
 
 def nt_C04(ins, outs):
